@@ -2,7 +2,7 @@
 From Coq Require Import List NArith ZArith String.
 From Tongo Require Import Lib.Bits Lib.Sx Harness.H06 Harness.H07 Harness.H01 Harness.H18
   Harness.H05 Harness.H13 Harness.H19 Harness.H12 Harness.H03 Harness.H04
-  Harness.H11 Harness.H16 Harness.H17 Harness.H20.
+  Harness.H11 Harness.H16 Harness.H17 Harness.H20 Harness.H08 Harness.H10.
 Import ListNotations.
 Local Open Scope string_scope.
 
@@ -78,4 +78,21 @@ Definition run (name : string) (a : sx) : sx :=
   else if is "c20.method" then H20.run_method a
   else if is "c20.valid" then H20.run_valid a
   else if is "c20.unquote" then H20.run_unquote a
+  else if is "c08.tl" then H08.run_tl a
+  else if is "c08.tlb" then H08.run_tlb a
+  else if is "c08.declen" then H08.run_declen a
+  else if is "c08.answer" then H08.run_answer a
+  else if is "c08.packet" then H08.run_packet a
+  else if is "c08.vmstack" then H08.run_vmstack a
+  else if is "c08.methods" then H08.run_methods a
+  else if is "c08.accproof" then H08.run_accproof a
+  else if is "c10.marshal" then H10.run_marshal_any a
+  else if is "c10.cmarshal" then H10.run_marshal_canon a
+  else if is "c10.unmarshal" then H10.run_unmarshal_any a
+  else if is "c10.cunmarshal" then H10.run_unmarshal_canon a
+  else if is "c10.reqdecode" then H10.run_reqdecode a
+  else if is "c10.request" then H10.run_request a
+  else if is "c10.sizeof" then H10.run_sizeof a
+  else if is "c10.camel" then H10.run_camel a
+  else if is "c10.enclen" then H10.run_enclen a
   else sx_err "unknown case kind".
